@@ -77,6 +77,12 @@ class C14(Check):
                       'clear': rng.random() < 0.5, 'float_precision': 'float64'}
                 ops.append({'op': 'compile', 'obj': 'T', 'api': 'get_jacobian_func' if k == 'jac' else 'get_run_func',
                             'kw': kw})
+                if k == 'compile' and rng.random() < 0.3:
+                    # an extrinsic input: attaching it must happen on the copy that is compiled, not on the template
+                    (inode, iop), iinst = rng.choice(sorted(net.inst.items()))
+                    kw['step_size'] = 1e-3
+                    ops[-1]['input'] = {'target': f"{inode}/{iop}/{models.LIB[iinst['lib']]['in']}", 'n': 8,
+                                        'amp': rng.choice([0.5, 1.0, -0.25])}
             elif k == 'run':
                 if run_kw is None or rng.random() < 0.4:
                     dt = rng.choice([1e-3, 0.01])
@@ -85,6 +91,10 @@ class C14(Check):
                               'solver': rng.choice(['euler', 'heun']),
                               'outputs': {f'o{i}': n for i, n in enumerate(net.state_names)}}
                 ops.append({'op': 'run', 'obj': 'T', 'kw': copy.deepcopy(run_kw)})
+                if rng.random() < 0.3:
+                    (inode, iop), iinst = rng.choice(sorted(net.inst.items()))
+                    ops[-1]['input'] = {'target': f"{inode}/{iop}/{models.LIB[iinst['lib']]['in']}",
+                                        'n': int(round(run_kw['T'] / run_kw['dt'])), 'amp': rng.choice([0.5, 1.0, -0.25])}
                 if sibling is not None and rng.random() < 0.5:
                     # the same kind of call on the sibling that shares T's template objects: its repeated results must
                     # not depend on what was done to T in between (and vice versa)
@@ -206,7 +216,7 @@ class C14(Check):
                     break
             # (3) repeat law for in_place=False compile / run
             if op['op'] in ('compile', 'run') and out.get('status') != 'interrupted':
-                key = json.dumps([op.get('obj', 'T'), op['op'], op.get('api'), op['kw']], sort_keys=True)
+                key = json.dumps([op.get('obj', 'T'), op['op'], op.get('api'), op['kw'], op.get('input')], sort_keys=True)
                 cmp_ = dict(out)
                 if op['op'] == 'compile' and cmp_.get('status') == 'ok':
                     cmp_.pop('y0', None); cmp_.pop('vf', None)
